@@ -2,6 +2,7 @@ package main
 
 import (
 	"fmt"
+	"go/ast"
 	"go/token"
 	"go/types"
 	"os"
@@ -55,8 +56,12 @@ type Ctx struct {
 	AllPkgs []*packages.Package
 	// statistics
 	NFuncs int
+	// normalisation log: which new helpers were inlined back where (inline.go)
+	InlineLog []string
 
-	cg *callgraph.Graph
+	cg      *callgraph.Graph
+	deadNew map[*types.Func]bool
+	succ    map[string]*ssa.Function
 }
 
 // Callees resolves a call instruction through the VTA call graph built over the
@@ -87,16 +92,61 @@ type LoadOpts struct {
 	Overlay   map[string][]byte // absolute path -> content (seeded variants)
 	AllSyntax bool              // load dependencies with syntax too (whole-program)
 	GOARCH    string
+	NoInline  bool // skip the new-helper normalisation (used to generate the baseline table)
 }
 
 func isRepoPkg(path string) bool {
 	return path == modRoot || strings.HasPrefix(path, modRoot+"/")
 }
 
+// Load loads the working tree; when it contains unexported functions that the
+// pinned tree does not have, calls to them are inlined back (inline.go) and the
+// tree is loaded again from the rewritten overlay, up to four rounds.
 func Load(o LoadOpts) (*Ctx, error) {
 	if o.Repo == "" {
 		o.Repo = "/repo"
 	}
+	var log []string
+	var prev *Ctx
+	for round := 1; ; round++ {
+		c, err := loadOnce(o)
+		if err != nil {
+			if prev != nil {
+				// The rewritten sources do not type-check: a limitation of the inliner, not a
+				// property of the tree. Fall back to the last program that did load.
+				prev.InlineLog = append(log, fmt.Sprintf("normalisation round %d abandoned, analysing the program of round %d: %v", round-1, round-2, err))
+				prev.deadNew = nil
+				return prev, nil
+			}
+			return nil, err
+		}
+		c.InlineLog = log
+		if o.NoInline || round > 4 {
+			return c, nil
+		}
+		add, l, err := normaliseNewHelpers(c.Fset, c.AllPkgs, o.Overlay, round)
+		if err != nil {
+			c.InlineLog = append(log, "normalisation failed: "+err.Error())
+			return c, nil
+		}
+		log = append(log, l...)
+		c.InlineLog = log
+		if len(add) == 0 {
+			return c, nil
+		}
+		ov := map[string][]byte{}
+		for k, v := range o.Overlay {
+			ov[k] = v
+		}
+		for k, v := range add {
+			ov[k] = v
+		}
+		o.Overlay = ov
+		prev = c
+	}
+}
+
+func loadOnce(o LoadOpts) (*Ctx, error) {
 	dir, err := os.MkdirTemp("", "carlint-umbrella")
 	if err != nil {
 		return nil, err
@@ -230,6 +280,105 @@ replace %[4]s => %[1]s
 // type name, name). recv is "" for functions; for methods it is the bare type
 // name (pointer-ness is resolved from the declaration).
 func (c *Ctx) Func(pkg, recv, name string) (*ssa.Function, error) {
+	fn, err := c.funcExact(pkg, recv, name)
+	if err == nil {
+		return fn, nil
+	}
+	// An unexported anchor of the pinned tree that is gone: renamed, merged with a
+	// sibling, or turned into a method. Its successor is the new function of the same
+	// package whose set of callees resembles the anchor's most (baseline fingerprint).
+	if succ := c.successor(pkg, recv, name); succ != nil {
+		return succ, nil
+	}
+	return nil, err
+}
+
+func (c *Ctx) successor(pkg, recv, name string) *ssa.Function {
+	key := pkg + "\t" + recv + "\t" + name
+	want, ok := baselineFingerprint[key]
+	if !ok || len(want) == 0 || ast.IsExported(name) {
+		return nil
+	}
+	if c.succ == nil {
+		c.succ = map[string]*ssa.Function{}
+	}
+	if f, done := c.succ[key]; done {
+		return f
+	}
+	p := c.Pkgs[pkg]
+	var best *ssa.Function
+	bestScore, second := 0.0, 0.0
+	if p != nil {
+		for _, f := range p.Syntax {
+			for _, d := range f.Decls {
+				fd, ok := d.(*ast.FuncDecl)
+				if !ok || fd.Body == nil || baselineFuncs[declKey(pkg, fd)] {
+					continue
+				}
+				obj, _ := p.TypesInfo.Defs[fd.Name].(*types.Func)
+				if obj == nil {
+					continue
+				}
+				fn := c.Prog.FuncValue(obj)
+				if fn == nil {
+					continue
+				}
+				got := calleeFingerprint(fn)
+				inter := 0
+				for k := range want {
+					if got[k] {
+						inter++
+					}
+				}
+				union := len(want) + len(got) - inter
+				if union == 0 {
+					continue
+				}
+				sc := float64(inter) / float64(union)
+				// containment also counts: two merged siblings contain each of them
+				if cont := float64(inter) / float64(len(want)); cont > 0.8 && sc < cont*0.75 {
+					sc = cont * 0.75
+				}
+				if sc > bestScore {
+					best, second, bestScore = fn, bestScore, sc
+				} else if sc > second {
+					second = sc
+				}
+			}
+		}
+	}
+	if best == nil || bestScore < 0.5 || bestScore-second < 0.1 {
+		best = nil
+	} else {
+		c.InlineLog = append(c.InlineLog, fmt.Sprintf("anchor %s.%s.%s is gone; analysing its successor %s (callee-set similarity %.2f)", shortPkg(pkg), recv, name, fnKey(best), bestScore))
+	}
+	c.succ[key] = best
+	return best
+}
+
+// calleeFingerprint: the set of functions and methods a function (with its closures) calls.
+func calleeFingerprint(fn *ssa.Function) map[string]bool {
+	out := map[string]bool{}
+	for _, g := range withAnon(fn) {
+		eachInstr(g, func(in ssa.Instruction) {
+			ci, ok := in.(ssa.CallInstruction)
+			if !ok {
+				return
+			}
+			cc := ci.Common()
+			if cc.IsInvoke() {
+				out["invoke:"+cc.Method.Name()] = true
+				return
+			}
+			if f := calleeFunc(cc); f != nil {
+				out[funcKey(f)] = true
+			}
+		})
+	}
+	return out
+}
+
+func (c *Ctx) funcExact(pkg, recv, name string) (*ssa.Function, error) {
 	sp := c.SSA[pkg]
 	if sp == nil {
 		return nil, fmt.Errorf("anchor: package %s not loaded", pkg)
@@ -282,13 +431,49 @@ func (c *Ctx) Named(pkg, name string) (*types.Named, error) {
 
 // RepoFuncs returns every function with a body defined in repository packages,
 // including anonymous functions, sorted by position.
+// deadNewHelpers: unexported functions that the pinned tree does not have and that
+// nothing in the (normalised) program refers to any more.
+func (c *Ctx) deadNewHelpers() map[*types.Func]bool {
+	if c.deadNew != nil {
+		return c.deadNew
+	}
+	c.deadNew = map[*types.Func]bool{}
+	if len(c.InlineLog) == 0 {
+		return c.deadNew
+	}
+	used := map[types.Object]bool{}
+	for _, p := range c.Pkgs {
+		for _, o := range p.TypesInfo.Uses {
+			used[o] = true
+		}
+	}
+	for path, p := range c.Pkgs {
+		for _, f := range p.Syntax {
+			for _, d := range f.Decls {
+				fd, ok := d.(*ast.FuncDecl)
+				if !ok || fd.Name.IsExported() || baselineFuncs[declKey(path, fd)] {
+					continue
+				}
+				if o, ok := p.TypesInfo.Defs[fd.Name].(*types.Func); ok && !used[o] {
+					c.deadNew[o] = true
+				}
+			}
+		}
+	}
+	return c.deadNew
+}
+
 func (c *Ctx) RepoFuncs() []*ssa.Function {
 	var out []*ssa.Function
 	seen := map[*ssa.Function]bool{}
 	var add func(fn *ssa.Function)
+	dead := c.deadNewHelpers()
 	add = func(fn *ssa.Function) {
 		if fn == nil || seen[fn] || fn.Blocks == nil {
 			return
+		}
+		if o, ok := fn.Object().(*types.Func); ok && dead[o] {
+			return // a new helper whose every call was inlined back: its body now lives in its callers
 		}
 		seen[fn] = true
 		out = append(out, fn)
